@@ -128,6 +128,68 @@ func genStructure(repo, out string) {
 			}
 		}
 	}
+	// lock sites: every X.Lock() / X.RLock() statement and whether the NEXT statement of its block is the
+	// matching deferred unlock
+	type lockRow struct {
+		fn, mutex, where string
+		deferred        bool
+	}
+	var locks []lockRow
+	for _, dir := range []string{"hotline", filepath.Join("internal", "mobius")} {
+		ents, _ := os.ReadDir(filepath.Join(repo, dir))
+		for _, e := range ents {
+			n := e.Name()
+			if !strings.HasSuffix(n, ".go") || strings.HasSuffix(n, "_test.go") || n == "verif_export.go" {
+				continue
+			}
+			f := parseFile(filepath.Join(repo, dir, n))
+			for _, d := range f.Decls {
+				fd, ok := d.(*ast.FuncDecl)
+				if !ok || fd.Body == nil {
+					continue
+				}
+				ast.Inspect(fd.Body, func(x ast.Node) bool {
+					blk, ok := x.(*ast.BlockStmt)
+					if !ok {
+						return true
+					}
+					for i, st := range blk.List {
+						es, ok := st.(*ast.ExprStmt)
+						if !ok {
+							continue
+						}
+						call, ok := es.X.(*ast.CallExpr)
+						if !ok {
+							continue
+						}
+						fs := exprString(call.Fun)
+						var mu, un string
+						switch {
+						case strings.HasSuffix(fs, ".RLock"):
+							mu, un = strings.TrimSuffix(fs, ".RLock"), ".RUnlock"
+						case strings.HasSuffix(fs, ".Lock"):
+							mu, un = strings.TrimSuffix(fs, ".Lock"), ".Unlock"
+						default:
+							continue
+						}
+						deferred := false
+						if i+1 < len(blk.List) {
+							if ds, ok := blk.List[i+1].(*ast.DeferStmt); ok && exprString(ds.Call.Fun) == mu+un {
+								deferred = true
+							}
+						}
+						recv := ""
+						if fd.Recv != nil && len(fd.Recv.List) > 0 {
+							recv = exprString(fd.Recv.List[0].Type) + "."
+						}
+						locks = append(locks, lockRow{recv + fd.Name.Name, mu, pos(st), deferred})
+					}
+					return true
+				})
+			}
+		}
+	}
+	sort.SliceStable(locks, func(i, j int) bool { return locks[i].where < locks[j].where })
 	sort.SliceStable(gos, func(i, j int) bool { return gos[i].where < gos[j].where })
 	var b bytes.Buffer
 	b.WriteString("(* GENERATED by /verif/translator from hotline/*.go and internal/mobius/*.go — do not edit. *)\n")
@@ -163,6 +225,14 @@ func genStructure(repo, out string) {
 			w = "func-literal"
 		}
 		fmt.Fprintf(&b, "  (%s, %s)%s (* %s *)\n", coqStr(g.fn), coqStr(w), sep, g.where)
+	}
+	b.WriteString("].\n\n(* lock statements: (function, mutex, is the next statement the matching deferred unlock?) *)\nDefinition lock_sites : list (string * string * bool) := [\n")
+	for i, l := range locks {
+		sep := ";"
+		if i == len(locks)-1 {
+			sep = ""
+		}
+		fmt.Fprintf(&b, "  (%s, %s, %v)%s (* %s *)\n", coqStr(l.fn), coqStr(l.mutex), l.deferred, sep, l.where)
 	}
 	b.WriteString("].\n")
 	writeIfChanged(filepath.Join(out, "Structure.v"), b.Bytes())
